@@ -489,9 +489,15 @@ class Check:
                                 "found_failing_input": found, "key": key})
 
     def known_finding(self, fid, what):
-        line = "KNOWN-FINDING: property=%s %s: %s" % (self.prop, fid, what)
-        if line not in self.known:
-            self.known.append(line)
+        """one KNOWN-FINDING line per listed finding id (first witness of this run + how many cases fell in the class)"""
+        if not hasattr(self, "known_by_id"):
+            self.known_by_id = {}
+        e = self.known_by_id.setdefault(fid, {"first": what, "n": 0})
+        e["n"] += 1
+        descr = next((f.get("what", "") for f in self.findings if f["id"] == fid), "")
+        self.known = ["KNOWN-FINDING: property=%s %s: %s [%d case(s) of this run in the class; first: %s]"
+                      % (self.prop, i, next((f.get("what", "") for f in self.findings if f["id"] == i), "")[:300],
+                         v["n"], v["first"][:300]) for i, v in sorted(self.known_by_id.items())]
 
     def finding_ids(self):
         return {f["id"] for f in self.findings}
